@@ -31,6 +31,7 @@ REQUIRED_COVER = [
     "tau_to_inf_regime",
     "state_at_0_and_1",
     "float32_qualitative",
+    "solver_gate_direct",
 ] + [f"mech:{m}" for m in refkin.C03_MECHS]
 ASSUMPTIONS = [
     "float64 voltages between lattice points are visited only within 64 ulp of special points (DESIGN section 4); the "
@@ -58,8 +59,11 @@ SUB = 1 << 21  # sub-block of the float32 sweep
 
 
 # ----------------------------------------------------------------------------- enumeration
+SOLVER_RATES = [1e-9, 1e-6, 1e-3, 0.025, 1.0, 40.0, 1e3, 1e6, 1e9]  # alpha, beta (1/ms) and tau (ms) alphabet
+
+
 def _items(tier):
-    items = []
+    items = [{"kind": "solver", "dtype": d} for d in ("float64", "float32")]
     for mech in refkin.C03_MECHS:
         for ip, p in enumerate(refkin.psets(mech)):
             for dtype in ("float64", "float32"):
@@ -280,8 +284,68 @@ def _fast_count(mech, p, v, dtype):
     return int(_FAST[key](jnp.asarray(v)))
 
 
+def solver_direct(dtype, out, only=None):
+    """The three exponential-Euler entry points of jaxley.solver_gate on the full product of the state, dt, x_inf and
+    rate/time-constant alphabets (the integrator itself, independent of any rate function)."""
+    import itertools
+
+    import jax.numpy as jnp
+    from jaxley import solver_gate as sg
+
+    npd = np.float64 if dtype == "float64" else np.float32
+    tol = TOL[dtype]
+    X = np.asarray(kl.STATE_ALPHABET, dtype=npd)
+    R = np.asarray(SOLVER_RATES, dtype=npd)
+    cases = {}
+    x, xi, tau = [a.ravel() for a in np.meshgrid(X, X, R, indexing="ij")]
+    cases["exponential_euler"] = (x, xi.astype(np.float64), tau.astype(np.float64), lambda dt: sg.exponential_euler(
+        jnp.asarray(x), dt, jnp.asarray(xi), jnp.asarray(tau)))
+    cases["solve_inf_gate_exponential"] = (x, xi.astype(np.float64), tau.astype(np.float64), lambda dt: sg.solve_inf_gate_exponential(
+        jnp.asarray(x), dt, jnp.asarray(xi), jnp.asarray(tau)))
+    x2, a, b = [q.ravel() for q in np.meshgrid(X, R, R, indexing="ij")]
+    a64, b64 = a.astype(np.float64), b.astype(np.float64)
+    cases["solve_gate_exponential"] = (x2, a64 / (a64 + b64), 1.0 / (a64 + b64), lambda dt: sg.solve_gate_exponential(
+        jnp.asarray(x2), dt, jnp.asarray(a), jnp.asarray(b)))
+    for fn, (x0, xinf, tau_, call) in cases.items():
+        if only and only["gate"] != fn:
+            continue
+        x64 = x0.astype(np.float64)
+        for dt in kl.DT_ALPHABET:
+            try:
+                new = np.asarray(call(dt)).astype(np.float64)
+            except Exception as e:
+                out["violations"].append(_viol("raises", "solver_gate", fn, dtype, "ordinary", {}, 0.0, dt, 0.0,
+                                               f"{type(e).__name__}: {e}"[:200], exc=type(e).__name__))
+                continue
+            out["evals"] += len(x0)
+            with np.errstate(all="ignore"):
+                want = xinf + (x64 - xinf) * np.exp(-dt / tau_)
+            fin = np.isfinite(new)
+            nz = np.where(fin, new, 0.5)
+            err = np.abs(nz - want)
+            bad = {"finite": ~fin,
+                   "in_unit_interval": fin & ((nz < -tol["range"]) | (nz > 1 + tol["range"])),
+                   "toward_never_past": fin & ((nz < np.minimum(x64, xinf) - tol["between"]) | (nz > np.maximum(x64, xinf) + tol["between"]))}
+            if dtype == "float64":
+                bad["closed_form"] = fin & ~(err <= TOL_CLOSED)
+            for rule, m in bad.items():
+                if m.any():
+                    i = int(np.nonzero(m)[0][0])
+                    v_ = _viol(rule, "solver_gate", fn, dtype, "ordinary", {}, 0.0, dt, float(x64[i]),
+                               f"x_inf={float(xinf[i])!r} tau={float(tau_[i])!r} new={float(new[i])!r} expected={float(want[i])!r} "
+                               f"({int(m.sum())} of {m.size} elements)")
+                    v_["witness"] = {"kind": "solver", "dtype": dtype, "gate": fn}
+                    out["violations"].append(v_)
+            if np.any(np.abs(nz - x64) > 1e-12):
+                out["digests"].append(digest(["solver_gate", fn, dtype, dt]))
+    out["cover"].append("solver_gate_direct")
+
+
 def work(item):
     out = _new_out()
+    if item["kind"] == "solver":
+        solver_direct(item["dtype"], out)
+        return out
     mech, p = item["mech"], item["p"]
     if item["kind"] == "alphabet":
         dtype = item["dtype"]
@@ -334,6 +398,9 @@ def _thin(viols, per_sig=3):
 
 def replay(w):
     out = _new_out()
+    if w.get("kind") == "solver":
+        solver_direct(w["dtype"], out, only=w)
+        return out["violations"]
     npd = np.float64 if w["dtype"] == "float64" else np.float32
     v = np.asarray([w["v"]], dtype=npd)
     run_and_judge(w["mech"], w["p"], v, w["dtype"], [w["dt"]], [w["state"]], out, want_digests=False)
